@@ -30,5 +30,4 @@ def run(tier, seed, t0):
 
 
 def replay(path):
-    print("C12 cases are deterministic; re-run ./vcheck C12 (the case id names request, configuration and draw classes)")
-    sys.exit(2)
+    vlib.replay_enum(PID, build(), path, env=None)
